@@ -291,8 +291,19 @@ func (r *realm) createMetaSession() {
 
 	r.dealer.setMetaPeer(cli)
 
-	// This session is the local leg of the router uplink.
-	r.metaSess = wamp.NewSession(rtr, metaID, wamp.Dict{"authrole": "trusted"}, nil)
+	// This session is the local leg of the router uplink. It publishes the
+	// testaments of departed sessions, with the publish options these gave,
+	// so it has the publisher features that the broker insists on. Without
+	// payload passthru, a testament using ppt_scheme would make the broker
+	// abort the meta session, and with it the realm.
+	metaRoles := wamp.Dict{
+		"roles": wamp.Dict{
+			wamp.RolePublisher: wamp.Dict{
+				"features": wamp.Dict{wamp.FeaturePayloadPassthruMode: true},
+			},
+		},
+	}
+	r.metaSess = wamp.NewSession(rtr, metaID, wamp.Dict{"authrole": "trusted"}, metaRoles)
 
 	// Run the handler for messages from the meta session.
 	go func() {
